@@ -58,12 +58,20 @@ def run(ck):
         pattern = []
         opens = []
         writes = []
+        nonblock = {}        # descriptor -> is its open file description in non-blocking mode right now (open flags, then fcntl F_SETFL)
         for c in calls:
             if c['name'] in ('openat', 'open') and c.get('path') == target:
                 opens.append(c)
                 if isinstance(c.get('ret'), int) and c['ret'] >= 0:
                     fds.append(c['ret'])
+                    nonblock[c['ret']] = bool((c['a'][2] if c['name'] == 'openat' else c['a'][1]) & O_NONBLOCK)
                 pattern.append('openat')
+            elif c['name'] == 'fcntl' and c['a'][0] in fds and c['a'][1] == 4 and isinstance(c.get('ret'), int) and c['ret'] == 0:      # F_SETFL
+                nonblock[c['a'][0]] = bool(c['a'][2] & O_NONBLOCK)
+            elif c['name'] in WRITES and c['a'][0] in fds and nonblock.get(c['a'][0]):
+                c['nonblocking_write'] = True
+                pattern.append(c['name'])
+                writes.append(c)
             elif c['name'] in WRITES + ('close', 'lseek', 'ftruncate', 'fsync') and c['a'][0] in fds:
                 pattern.append(c['name'])
                 if c['name'] in WRITES:
@@ -114,8 +122,8 @@ def run(ck):
                 bad.append('not_opened_for_appending')
             if fl & O_TRUNC:
                 bad.append('opened_with_O_TRUNC')
-            if fl & O_NONBLOCK:
-                bad.append('opened_non_blocking')     # on a tty or FIFO destination a non-blocking append may be cut short: not one indivisible append
+        if any(w_.get('nonblocking_write') for w_ in writes):
+            bad.append('record_written_in_non_blocking_mode')     # on a tty or FIFO destination a non-blocking append may be cut short: not one indivisible append
         if any(x in pattern for x in ('ftruncate', 'lseek')):
             bad.append('log_file_shortened_or_repositioned')
         if rep.get('bad_closes'):
